@@ -538,6 +538,10 @@ impl<MutexType: RawMutex> GenericSemaphore<MutexType> {
     }
 }
 
+#[cfg(kani)]
+#[path = "/verif/kani/semaphore.rs"]
+pub(crate) mod kani_verif;
+
 // Export a non thread-safe version using NoopLock
 
 /// A [`GenericSemaphore`] which is not thread-safe.
@@ -828,6 +832,10 @@ mod if_alloc {
             self.state.lock().permits()
         }
     }
+
+    #[cfg(kani)]
+    #[path = "/verif/kani/semaphore_shared.rs"]
+    mod kani_verif_shared;
 
     // Export parking_lot based shared semaphores in std mode
     #[cfg(feature = "std")]
